@@ -358,16 +358,52 @@ Definition handle_closed (q : request) : response :=
       match filter (fun t => negb (is_ok (parse_point (q_prec q) DFLT t))) (candidate_lines data) with
       | (_ :: _) as bad => {| r_status := 400; r_code := C_INVALID; r_rejected := bad; r_dropped := None; r_calls := [] |}
       | [] =>
-        let call := map point_obs (oks (map (parse_point (q_prec q) DFLT) (candidate_lines data))) in
-        match q_writer q with
-        | WOk => {| r_status := 204; r_code := C_NONE; r_rejected := []; r_dropped := None; r_calls := [call] |}
-        | WPartial d => {| r_status := 422; r_code := C_UNPROCESSABLE; r_rejected := [];
-                           r_dropped := Some d; r_calls := [call] |}
-        | WErr => {| r_status := 500; r_code := C_INTERNAL; r_rejected := []; r_dropped := None; r_calls := [call] |}
+        let pts := oks (map (parse_point (q_prec q) DFLT) (candidate_lines data)) in
+        let call := map point_obs pts in
+        let '(eff, called) := logging_write (q_logger q) (q_writer q) (length pts) in
+        let calls := if called then [call] else [] in
+        match eff with
+        | EOk => {| r_status := 204; r_code := C_NONE; r_rejected := []; r_dropped := None; r_calls := calls |}
+        | EPartial d => {| r_status := 422; r_code := C_UNPROCESSABLE; r_rejected := [];
+                           r_dropped := Some d; r_calls := calls |}
+        | EOther => {| r_status := 500; r_code := C_INTERNAL; r_rejected := []; r_dropped := None; r_calls := calls |}
         end
       end
     end
   end.
+
+(** what the LoggingPointsWriter hands back *)
+Lemma logging_write_ok lg w n :
+  fst (logging_write lg w n) = EOk <->
+  (w = WOk \/ (exists f ok, lg = LWrap f ok) /\ n = O).
+Proof.
+  unfold logging_write. destruct lg as [|f ok].
+  - destruct w; cbn; split; auto; try discriminate; intros [H | [[f [ok H]] _]]; discriminate.
+  - destruct n; cbn.
+    + split; [intros _; right; split; [eauto | reflexivity] | reflexivity].
+    + destruct w; cbn; [split; auto| |].
+      * destruct ((f =? 0)%N && ok); cbn; split; try discriminate; intros [H | [_ H]]; discriminate.
+      * destruct ((f =? 0)%N && ok); cbn; split; try discriminate; intros [H | [_ H]]; discriminate.
+Qed.
+
+Lemma logging_write_partial lg w n d :
+  fst (logging_write lg w n) = EPartial d -> w = WPartial d.
+Proof.
+  unfold logging_write. destruct lg as [|f ok].
+  - destruct w; cbn; intros [=]; congruence.
+  - destruct n; cbn; [discriminate|]. destruct w; cbn; try discriminate;
+      destruct ((f =? 0)%N && ok); cbn; intros [=]; congruence.
+Qed.
+
+Lemma logging_write_called lg w n :
+  snd (logging_write lg w n) = false <-> (exists f ok, lg = LWrap f ok) /\ n = O.
+Proof.
+  unfold logging_write. destruct lg as [|f ok].
+  - cbn. split; [discriminate | intros [[f [ok H]] _]; discriminate].
+  - destruct n; cbn.
+    + split; [intros _; split; [eauto | reflexivity] | reflexivity].
+    + split; [|intros [_ H]; discriminate]. destruct w; cbn; try discriminate; destruct ((f =? 0)%N && ok); discriminate.
+Qed.
 
 Lemma handle_closed_eq script q : handle script q = handle_closed q.
 Proof.
@@ -392,7 +428,7 @@ Proof.
   - split; [|tauto]. intros H. exfalso.
     destruct (body_spec_accepted_cases _ Ha) as [E | E]; rewrite E in H; [|cbn in H; discriminate].
     unfold by_end in H. rewrite He in H.
-    destruct (filter _ _); [destruct (q_writer q)|]; cbn in H; discriminate.
+    destruct (filter _ _); [destruct (logging_write _ _ _) as [[| |] ?]|]; cbn in H; discriminate.
   - rewrite (body_spec_rejected _ Ha). cbn. tauto.
 Qed.
 
@@ -451,11 +487,19 @@ Proof.
   - rewrite IH. split; intros H x; [intros [<- | Hx]; auto | intros Hx; apply H; auto].
 Qed.
 
+Definition parsed_points (q : request) : list rawpoint :=
+  oks (map (parse_point (q_prec q) DFLT) (candidate_lines (u_rem (q_stream q)))).
+Definition wrapped (q : request) : Prop := exists f ok, q_logger q = LWrap f ok.
+
+(** 204 => every check passed, every line parsed and the ENGINE (the underlying writer, behind
+    the LoggingPointsWriter if installed) accepted every point in one call - or there was no
+    point at all and the wrapper did not bother the engine *)
 Lemma ok_only_after_all_stored script q :
   r_status (handle script q) = 204%N ->
-  precheck q = None /\ u_end (q_stream q) = EndEOF /\ accepted_size q /\ q_writer q = WOk /\
+  precheck q = None /\ u_end (q_stream q) = EndEOF /\ accepted_size q /\
   (forall t, In t (candidate_lines (u_rem (q_stream q))) -> is_ok (parse_point (q_prec q) DFLT t) = true) /\
-  r_calls (handle script q) = [all_points q].
+  ((q_writer q = WOk /\ r_calls (handle script q) = [all_points q]) \/
+   (wrapped q /\ parsed_points q = [] /\ r_calls (handle script q) = [])).
 Proof.
   rewrite handle_closed_eq. unfold handle_closed.
   destruct (precheck q) as [r|] eqn:Hp.
@@ -465,15 +509,52 @@ Proof.
   destruct (body_spec_accepted_cases _ Ha) as [E | E]; rewrite E; [|cbn; discriminate]. unfold by_end.
   destruct (u_end (q_stream q)) eqn:He; try (cbn; discriminate).
   destruct (filter _ _) eqn:Hf; [|cbn; discriminate].
-  destruct (q_writer q) eqn:Hw; cbn; try discriminate. intros _.
+  fold (parsed_points q).
+  destruct (logging_write (q_logger q) (q_writer q) (length (parsed_points q))) as [eff called] eqn:Hl.
+  destruct eff; cbn; try discriminate. intros _.
   repeat split; auto.
-  intros t Hin. pose proof (proj1 (filter_nil_forall _ _) Hf t Hin) as H. cbn in H.
-  now destruct (is_ok _).
+  - intros t Hin. pose proof (proj1 (filter_nil_forall _ _) Hf t Hin) as H. cbn in H. now destruct (is_ok _).
+  - pose proof (proj1 (logging_write_ok (q_logger q) (q_writer q) (length (parsed_points q)))) as Hok.
+    rewrite Hl in Hok. specialize (Hok eq_refl).
+    destruct called eqn:Hc.
+    + left. split; [|reflexivity]. destruct Hok as [Hw | [Hwr Hn]]; [exact Hw|].
+      exfalso. pose proof (proj2 (logging_write_called (q_logger q) (q_writer q) (length (parsed_points q))) (conj Hwr Hn)) as X.
+      rewrite Hl in X. discriminate.
+    + right. pose proof (proj1 (logging_write_called (q_logger q) (q_writer q) (length (parsed_points q)))) as X.
+      rewrite Hl in X. destruct (X eq_refl) as [Hwr Hn]. split; [exact Hwr|]. split; [|reflexivity].
+      apply length_zero_iff_nil. exact Hn.
 Qed.
 
+(** a well-formed request of accepted size: the answer is decided by what the
+    LoggingPointsWriter hands back *)
 Lemma writer_error_reported script q :
   precheck q = None -> u_end (q_stream q) = EndEOF -> accepted_size q -> progresses q ->
   (forall t, In t (candidate_lines (u_rem (q_stream q))) -> is_ok (parse_point (q_prec q) DFLT t) = true) ->
+  let '(eff, called) := logging_write (q_logger q) (q_writer q) (length (parsed_points q)) in
+  let calls := if called then [all_points q] else [] in
+  handle script q =
+    match eff with
+    | EOk => {| r_status := 204; r_code := C_NONE; r_rejected := []; r_dropped := None; r_calls := calls |}
+    | EPartial d => {| r_status := 422; r_code := C_UNPROCESSABLE; r_rejected := []; r_dropped := Some d;
+                       r_calls := calls |}
+    | EOther => {| r_status := 500; r_code := C_INTERNAL; r_rejected := []; r_dropped := None; r_calls := calls |}
+    end.
+Proof.
+  intros Hp He Ha Hpr Hall. rewrite handle_closed_eq. unfold handle_closed. rewrite Hp.
+  rewrite (body_spec_accepted _ Ha Hpr). unfold by_end. rewrite He.
+  assert (Hf : filter (fun t => negb (is_ok (parse_point (q_prec q) DFLT t)))
+                      (candidate_lines (u_rem (q_stream q))) = []).
+  { apply filter_nil_forall. intros t Hin. now rewrite (Hall t Hin). }
+  rewrite Hf. fold (parsed_points q). unfold all_points. fold (parsed_points q).
+  destruct (logging_write _ _ _) as [[| |] called]; reflexivity.
+Qed.
+
+(** without the wrapper, or with a wrapper whose logging works: a partial write is answered
+    422 with its dropped count, any other engine error 500, nil 204 *)
+Lemma writer_error_reported_plain script q :
+  precheck q = None -> u_end (q_stream q) = EndEOF -> accepted_size q -> progresses q ->
+  (forall t, In t (candidate_lines (u_rem (q_stream q))) -> is_ok (parse_point (q_prec q) DFLT t) = true) ->
+  (q_logger q = LNone \/ (exists ok, q_logger q = LWrap 0 ok /\ ok = true) /\ parsed_points q <> []) ->
   handle script q =
     match q_writer q with
     | WOk => {| r_status := 204; r_code := C_NONE; r_rejected := []; r_dropped := None; r_calls := [all_points q] |}
@@ -482,12 +563,11 @@ Lemma writer_error_reported script q :
     | WErr => {| r_status := 500; r_code := C_INTERNAL; r_rejected := []; r_dropped := None; r_calls := [all_points q] |}
     end.
 Proof.
-  intros Hp He Ha Hpr Hall. rewrite handle_closed_eq. unfold handle_closed. rewrite Hp.
-  rewrite (body_spec_accepted _ Ha Hpr). unfold by_end. rewrite He.
-  assert (Hf : filter (fun t => negb (is_ok (parse_point (q_prec q) DFLT t)))
-                      (candidate_lines (u_rem (q_stream q))) = []).
-  { apply filter_nil_forall. intros t Hin. now rewrite (Hall t Hin). }
-  rewrite Hf. destruct (q_writer q); reflexivity.
+  intros Hp He Ha Hpr Hall Hlg. pose proof (writer_error_reported script q Hp He Ha Hpr Hall) as H.
+  destruct Hlg as [Hlg | [[ok [Hlg ->]] Hne]]; rewrite Hlg in H; unfold logging_write in H.
+  - destruct (q_writer q); exact H.
+  - destruct (parsed_points q) eqn:Hpp; [congruence|]. cbn [length] in H.
+    destruct (q_writer q); exact H.
 Qed.
 
 Lemma no_store_unless_writer_called script q :
@@ -503,5 +583,23 @@ Proof.
   destruct (body_spec_accepted_cases _ Ha) as [E | E]; rewrite E; [|cbn; congruence]. unfold by_end, bad_lines.
   destruct (u_end (q_stream q)) eqn:He; try (cbn; congruence).
   destruct (filter _ _) eqn:Hf; [|cbn; congruence].
-  destruct (q_writer q) eqn:Hw; cbn; intros _; repeat split; auto; try discriminate.
+  fold (parsed_points q).
+  destruct (logging_write (q_logger q) (q_writer q) (length (parsed_points q))) as [eff called] eqn:Hl.
+  assert (Hcalled : r_calls (match eff with
+     | EOk => {| r_status := 204; r_code := C_NONE; r_rejected := []; r_dropped := None;
+                 r_calls := if called then [map point_obs (parsed_points q)] else [] |}
+     | EPartial d => {| r_status := 422; r_code := C_UNPROCESSABLE; r_rejected := []; r_dropped := Some d;
+                        r_calls := if called then [map point_obs (parsed_points q)] else [] |}
+     | EOther => {| r_status := 500; r_code := C_INTERNAL; r_rejected := []; r_dropped := None;
+                    r_calls := if called then [map point_obs (parsed_points q)] else [] |} end)
+     = if called then [map point_obs (parsed_points q)] else []) by (destruct eff; reflexivity).
+  rewrite Hcalled. destruct called; [intros _ | congruence].
+  repeat split; auto.
+  - intro H204. destruct eff; cbn in H204; try discriminate.
+    pose proof (proj1 (logging_write_ok (q_logger q) (q_writer q) (length (parsed_points q)))) as Hok.
+    rewrite Hl in Hok. destruct (Hok eq_refl) as [Hw | [Hwr Hn]]; [exact Hw|].
+    pose proof (proj2 (logging_write_called (q_logger q) (q_writer q) (length (parsed_points q))) (conj Hwr Hn)) as X.
+    rewrite Hl in X. discriminate.
+  - intro Hw. pose proof (proj2 (logging_write_ok (q_logger q) (q_writer q) (length (parsed_points q))) (or_introl Hw)) as X.
+    rewrite Hl in X. cbn in X. subst eff. reflexivity.
 Qed.
